@@ -183,7 +183,7 @@ func runCheck(repo, prop, tier, fnFilter, outDir string, noReplay, verbose bool)
 		fmt.Fprintln(os.Stderr, "nsqvc: cannot decide (engine error, fail closed):", err)
 		return 2
 	}
-	timeout := 10 * time.Second
+	timeout := 25 * time.Second
 	cross := false
 	if tier == "thorough" {
 		timeout = 120 * time.Second
